@@ -263,6 +263,14 @@ type base struct {
 	fkeys  []string
 	byHost map[string]string
 	synth  map[string]bool // synthetic shard files (not part of a collection)
+	all    []int           // histories: the nodes to dump (switched-off nodes included); nil: part
+}
+
+func (b *base) dumpNodes() []int {
+	if b.all != nil {
+		return b.all
+	}
+	return b.part
 }
 
 type fault struct {
@@ -378,8 +386,9 @@ func (h *harness) buildBase(sc int, tr transition, nUsers, colsPerUser, ptsPerCo
 			n.Close()
 		}
 	}
+	users := h.userIds(nUsers)
 	for u := 0; u < nUsers; u++ {
-		user := fmt.Sprintf("user%02d%04x", u, h.rng.Intn(65536))
+		user := users[u]
 		for c := 0; c < colsPerUser; c++ {
 			col := models.Collection{UserId: user, Id: fmt.Sprintf("col%02d", c), Replicas: 1, IndexSchema: schema, UserPlan: userPlan()}
 			api := nodes[h.rng.Intn(len(nodes))]
@@ -482,6 +491,31 @@ func (h *harness) buildBase(sc int, tr transition, nUsers, colsPerUser, ptsPerCo
 	return b, nil
 }
 
+// userIds: ids drawn from the seed; about half of them extend an earlier id by one or two characters
+// (alice / alice-eu, user1 / user10): user ids are free-form, routing must depend on the whole id,
+// and in the node database "<id>/<collection>" of the shorter id sorts directly before the longer.
+func (h *harness) userIds(n int) []string {
+	const tail = "0123456789abcdefxyz-_"
+	var ids []string
+	seen := map[string]bool{}
+	for len(ids) < n {
+		var id string
+		if len(ids) > 0 && h.rng.Chance(55) {
+			id = ids[h.rng.Intn(len(ids))]
+			for t := 1 + h.rng.Intn(2); t > 0; t-- {
+				id += string(tail[h.rng.Intn(len(tail))])
+			}
+		} else {
+			id = fmt.Sprintf("user%02d%04x", len(ids), h.rng.Intn(65536))
+		}
+		if !seen[id] {
+			seen[id] = true
+			ids = append(ids, id)
+		}
+	}
+	return ids
+}
+
 func (b *base) nodeIdx(name string) int {
 	for i, s := range b.specs {
 		if s.name == name {
@@ -527,7 +561,14 @@ func (h *harness) describe(b *base, sc int, flt fault) {
 func (h *harness) dump(b *base, specs []nodeSpec) (map[string]nodeState, string) {
 	res := map[string]nodeState{}
 	var parts []string
-	for _, i := range b.part {
+	knownR, knownF := map[string]bool{}, map[string]bool{}
+	for _, k := range b.rkeys {
+		knownR[k] = true
+	}
+	for _, k := range b.fkeys {
+		knownF[k] = true
+	}
+	for _, i := range b.dumpNodes() {
 		st, err := readNode(specs[i])
 		if err != nil {
 			parts = append(parts, specs[i].name+"[unreadable "+err.Error()+"]")
@@ -537,7 +578,7 @@ func (h *harness) dump(b *base, specs []nodeSpec) (map[string]nodeState, string)
 		var rs, fs []string
 		for _, k := range b.rkeys {
 			if v, ok := st.recs[k]; ok {
-				if bytes.Equal(v, b.orig.recs[k]) {
+				if o, live := b.orig.recs[k]; live && bytes.Equal(v, o) {
 					rs = append(rs, k+"=orig")
 				} else {
 					rs = append(rs, k+"="+digest(recSymbols(v)))
@@ -546,7 +587,7 @@ func (h *harness) dump(b *base, specs []nodeSpec) (map[string]nodeState, string)
 		}
 		for _, k := range b.fkeys {
 			if v, ok := st.files[k]; ok {
-				if bytes.Equal(v, b.orig.files[k]) {
+				if o, live := b.orig.files[k]; live && bytes.Equal(v, o) {
 					fs = append(fs, k+"=orig")
 				} else {
 					fs = append(fs, k+"="+digest(fileSymbols(v)))
@@ -554,16 +595,22 @@ func (h *harness) dump(b *base, specs []nodeSpec) (map[string]nodeState, string)
 			}
 		}
 		// anything the scenario does not know about is reported too
+		var unk []string
 		for k := range st.recs {
-			if _, ok := b.orig.recs[k]; !ok {
-				rs = append(rs, "UNKNOWN:"+k)
+			if !knownR[k] {
+				unk = append(unk, "UNKNOWN:"+k)
 			}
 		}
+		sort.Strings(unk)
+		rs = append(rs, unk...)
+		unk = nil
 		for k := range st.files {
-			if _, ok := b.orig.files[k]; !ok {
-				fs = append(fs, "UNKNOWN:"+k)
+			if !knownF[k] {
+				unk = append(unk, "UNKNOWN:"+k)
 			}
 		}
+		sort.Strings(unk)
+		fs = append(fs, unk...)
 		parts = append(parts, specs[i].name+"[r "+strings.Join(rs, " ")+" | f "+strings.Join(fs, " ")+"]")
 	}
 	return res, strings.Join(parts, " ")
@@ -1488,6 +1535,71 @@ func (h *harness) runAll(extra map[string]any, only int) {
 			h.runScenario(b, sc, f, kinds[f.kind] == 1)
 		}
 		os.RemoveAll(b.dir)
+	}
+	// ---- histories over several server lists (epochs.go)
+	type hplan struct {
+		kind             string
+		first            []int
+		users, cols, pts int
+		steps            []histStep
+	}
+	rnd := func(n int) []histStep {
+		var st []histStep
+		for i := 0; i < n; i++ {
+			st = append(st, histStep{mode: "random", ops: -1, dup: []string{"", "rec", "file"}[h.rng.Intn(3)]})
+		}
+		return st
+	}
+	// a change of the list is interrupted (the same record / shard is left on two nodes), rolled back
+	// without draining the node that leaves, the cluster serves and the data changes, then the change
+	// is applied again; afterwards the walk continues at random
+	rollback := func(dup string, ch ...string) []histStep {
+		return append([]histStep{
+			{prefer: ch, mode: "leave", dup: dup},
+			{prefer: []string{"rollback", "rollback-drain"}, mode: "clean", ops: 2, busy: true},
+			// the list before the last one is now the one whose application was interrupted
+			{prefer: []string{"rollback", "rollback-drain"}, mode: "random", ops: 2},
+		}, rnd(1)...)
+	}
+	var hplans []hplan
+	if h.tier == "quick" {
+		hplans = []hplan{
+			{"rollback-grow", []int{0}, 4, 1, 6, rollback("rec", "grow")},
+			{"rollback-grow", []int{0, 1}, 4, 1, 6, rollback("rec", "grow")},
+			{"rollback-grow", []int{1}, 3, 1, 6, rollback("file", "grow")},
+			{"rollback-replace", []int{0, 1}, 4, 1, 6, rollback("rec", "replace-drain", "replace")},
+			{"walk", []int{0, 1}, 3, 2, 6, rnd(4)},
+			{"walk", []int{0}, 4, 1, 6, rnd(4)},
+		}
+	} else {
+		hplans = []hplan{
+			{"rollback-grow", []int{0}, 4, 2, 9, rollback("rec", "grow")},
+			{"rollback-grow", []int{0, 1}, 4, 2, 9, rollback("rec", "grow")},
+			{"rollback-grow", []int{3}, 4, 2, 9, rollback("file", "grow")},
+			{"rollback-grow", []int{1, 2}, 5, 1, 9, rollback("file", "grow")},
+			{"rollback-replace", []int{0, 1}, 4, 2, 9, rollback("rec", "replace-drain", "replace")},
+			{"rollback-replace", []int{0}, 4, 1, 9, rollback("rec", "replace-drain", "replace")},
+			{"rollback-replace", []int{2}, 4, 1, 9, rollback("file", "replace-drain", "replace")},
+			{"rollback-shrink", []int{0, 1, 2}, 4, 1, 9, rollback("rec", "shrink-drain", "shrink")},
+		}
+		for i := 0; i < 10; i++ {
+			var first []int
+			for n := 0; n < 4; n++ {
+				if (i+1)>>uint(n%3)&1 == 1 && len(first) < 3 {
+					first = append(first, n)
+				}
+			}
+			if len(first) == 0 {
+				first = []int{i % 4}
+			}
+			hplans = append(hplans, hplan{"walk", first, 3 + i%3, 1 + i%2, 9, rnd(6)})
+		}
+	}
+	for i, p := range hplans {
+		sc := 100 + i
+		h.rng = vh.NewRng(h.seed*7919 + uint64(sc)*104729 + 1)
+		uuid.SetRand(&seededReader{r: vh.NewRng(h.seed*15485863 + uint64(sc)*32452843 + 5)})
+		h.runHistory(sc, p.kind, p.first, p.users, p.cols, p.pts, p.steps)
 	}
 }
 
